@@ -84,7 +84,7 @@ def run(ctx):
             movers[name] = f
     ctx.floor("stake-movers", len(movers), 5)
     for name, f in sorted(movers.items()):
-        short = name.rsplit("::", 1)[1]
+        short = name.rsplit("::", 1)[-1]
         iu = any(c[0].endswith("::index_update") for c in f.calls)
         st = any(x.endswith("ValidatorSubstate.sorted_key") for x in f.fw)
         ctx.ob(f"mover-reindexes|{short}", iu and st, f"{short}: calls index_update={iu}, stores sorted_key={st}", F.fns[name].loc())
